@@ -16,6 +16,9 @@ def handleRust (op : String) (args : List String) : Option String :=
       some (r ++ "\t" ++ spec)
     | _, _ => none
   | "rs.types", [_src] => some "ok\tok"
+  -- the emitted items are compiled with the real derive macro in a second stage of the check (`harness/bindcheck`);
+  -- the line only carries the program there
+  | "rs.derive", [_src] => some "deferred\t-"
   | _, _ => none
 
 end Candid.Driver
